@@ -11,6 +11,9 @@ import tracecheck
 
 
 def check(run):
+    if getattr(run, "replay", None):
+        import xstate_common as xc
+        return xc.maybe_replay(run)
     quick = run.tier == "quick"
     run.build_harness()
     run.tlc_mc("Ledger.tla", "MC_Ledger.cfg" if quick else "MC_Ledger_thorough.cfg", timeout=3000)
